@@ -19,10 +19,10 @@ CHECKS = {
          "For every generated message of any type / server-id kind on generated lease states: no reply => table unchanged; reply => only for DISCOVER/REQUEST meant for us, only the yiaddr row touched, header echoed, server-id ours.",
          "Malformed server-id lengths and server-id inside DISCOVER are unconstrained (statement silent). A second sub-check runs generated policy trees (apply-server-id as address / null, option values up to the longest an option can carry) against requests with parameter lists of any codes and a maximum message size (option 57): every reply carries a server identifier naming this server, and a message that is not answered leaves the store unchanged.", "3/C13"),
  "C18": ("HIST", "differential property testing (interrupted vs uninterrupted twin) + generated old-schema databases + fault injection at enumerated crash points (SIGKILL at every write-like call on the database file and its journal, via strace) and at sampled kill instants on the wire", "fault_enumeration",
-         "Reopen at generated split points of generated histories is indistinguishable from an uninterrupted twin; generated v0/v1 databases keep all rows, newer versions are refused unmodified.",
+         "Reopen at generated split points of generated histories is indistinguishable from an uninterrupted twin; generated v0/v1 databases keep all rows, newer versions are refused unmodified; lease files of 1..2500 rows (thorough 65537), mostly expired, are unchanged by opening them.",
          "Enumerated completely: the crash points between write-like system calls on the database file and its rollback journal for a few scripted allocation sequences, from the moment the file is opened (quick 3 scripts / about 90 points, thorough 6). Sampled: reopen points in generated histories, SIGKILL instants (quick 12, thorough 300) against the real erbium-dhcp on the wire. Not simulated: torn writes inside one write call, loss of unsynced data (power failure). The crash-points tier needs strace/ptrace; where that is refused it is recorded as unavailable.", "3/C18"),
  "C20": ("HIST", "property testing: gauges vs harness count after every step of generated histories", "exploration",
-         "After every step of every generated history (and on the empty store) the active/expired gauges equal the harness's own count of rows by expiry.",
+         "After every step of every generated history (and on the empty store) the active/expired gauges equal the harness's own count of rows by expiry; so do they while real time alone carries 1..3 s leases over their expiry with no write in between (sampled every 300 ms).",
          "Rows within 1 s of now are skipped (boundary ambiguous at one-second granularity). The HTTP listing and the /metrics gauges are private to the full binary and are decided by the wire tier of the same command (strict JSON parse, bijection with the rows read from the same SQLite file, hostile client-id/host-name bytes).", "3/C20"),
 
  "C12": ("CODEC", "round-trip + differential against independent RFC 2131/3396 and Ethernet/IPv4/UDP decoders over generated messages and frames; exhaustive sweep of the 65536 flag values", "exploration",
